@@ -350,16 +350,20 @@ class Unit:
                 opts = dict(q.split('=', 1) for q in parts[3:] if '=' in q)
                 self.do_bitflags(parts[1], parts[2], opts.get('all'))
             elif d.startswith('CENSUS'):
-                mm = re.match(r'CENSUS\s+(\S+)\s+(\S+)\s+`(.*)`\s*==\s*(\d+)', d)
+                # `//@CENSUS label file `pat` == N` (hard: a mismatch is a failed obligation) / `>= N`;
+                # `//@CENSUS? ...` (soft: a structural assumption of the unit about the source; a mismatch means the proof
+                # cannot be trusted as it stands = no verdict, never an alarm - such counts change under harmless rewrites)
+                mm = re.match(r'CENSUS(\??)\s+(\S+)\s+(\S+)\s+`(.*)`\s*(==|>=)\s*(\d+)', d)
                 if not mm:
                     raise ExtractError('bad CENSUS: ' + d)
-                label, file, pat, cnt = mm.groups()
+                soft, label, file, pat, op, cnt = mm.groups()
                 src, text, toks, items = self.source(file)
                 # count in non-test part only
                 body = self.nontest_text(file)
                 got = len(rsx.find_matches(rsx.Pattern(pat), body))
-                self.census.append({'label': label, 'file': file, 'pattern': pat,
-                                    'expected': int(cnt), 'found': got})
+                self.census.append({'label': label, 'file': file, 'pattern': pat, 'op': op, 'soft': bool(soft),
+                                    'expected': int(cnt), 'found': got,
+                                    'ok': (got == int(cnt)) if op == '==' else (got >= int(cnt))})
             elif d.startswith('LEMMA'):
                 parts = d.split()
                 pr = [x[6:] for x in parts[2:] if x.startswith('props=')]
@@ -473,6 +477,7 @@ class Unit:
                 it = cands[0]
                 hsig = text[it.start:it.sig_end]
                 hbody = strip_macros(strip_attrs_in_body(text[it.sig_end:it.end])).strip()
+                hbody = peel_guard_returns(hbody)
                 toks = [t.text for t in rsx.lex(hbody)]
                 if any(t in ('return', '?', 'loop', 'while', 'for', 'break', 'continue') for t in toks):
                     continue
@@ -931,6 +936,47 @@ ASSUME_PATTERNS = [
     ('axiom', re.compile(r'(?:broadcast\s+)?(?:proof\s+fn|axiom\s+fn)\s+(axiom_\w+)')),
     ('external_type', re.compile(r'#\[verifier::external_type_specification\][\s\S]{0,80}?struct\s+(\w+)')),
 ]
+
+
+def peel_guard_returns(block):
+    """`{ if C { return V; } REST }` is `{ if C { V } else { REST } }` (and `{ if C { return; } REST }` is
+    `{ if !(C) { REST } }`): leading guard clauses of a helper are turned into single-exit form, innermost last"""
+    b = block.strip()
+    if not (b.startswith('{') and b.endswith('}')):
+        return block
+    inner = b[1:-1]
+    toks = rsx.lex(inner)
+    if len(toks) < 6 or toks[0].text != 'if':
+        return block
+    # condition: tokens up to the first top-level `{`
+    depth = 0
+    j = 1
+    while j < len(toks):
+        t = toks[j].text
+        if t in ('(', '['):
+            depth += 1
+        elif t in (')', ']'):
+            depth -= 1
+        elif t == '{' and depth == 0:
+            break
+        j += 1
+    if j >= len(toks):
+        return block
+    k = rsx.match_close(toks, j)
+    then_toks = toks[j + 1:k]
+    if not then_toks or then_toks[0].text != 'return' or then_toks[-1].text != ';':
+        return block
+    if any(t.text in ('return', '{', '}') for t in then_toks[1:]):
+        return block
+    if k + 1 < len(toks) and toks[k + 1].text == 'else':
+        return block
+    cond = inner[toks[1].start:toks[j - 1].end]
+    val = inner[then_toks[1].start:then_toks[-2].end] if len(then_toks) > 2 else ''
+    rest = inner[toks[k].end:]
+    rest_block = peel_guard_returns('{' + rest + '}')
+    if val:
+        return '{ if %s { %s } else %s }' % (cond, val, rest_block)
+    return '{ if !(%s) %s }' % (cond, rest_block)
 
 
 def count_closures(text):
